@@ -311,6 +311,10 @@ func buildRequest(rng *rand.Rand, sc *Scenario, m methodInfo, cp clientPlan, hos
 				q.Del("connect")
 				add("Connect-Protocol-Version", "1")
 			}
+		} else if rng.IntN(5) == 0 {
+			// legal: a GET marked as Connect by the protocol-version header only
+			q.Del("connect")
+			add("Connect-Protocol-Version", "1")
 		}
 		sc.Req.Query = hs(q.Encode())
 		if len(accept) > 0 {
@@ -1488,6 +1492,11 @@ func buildRequestFixed(rng *rand.Rand, sc *Scenario, m methodInfo, cp clientPlan
 			}
 		} else {
 			q.Set("message", string(payload))
+		}
+		if rng.IntN(4) == 0 {
+			// a GET marked as Connect by the protocol-version header only (classifyRequest accepts it)
+			q.Del("connect")
+			add("Connect-Protocol-Version", "1")
 		}
 		sc.Req.Query = hs(q.Encode())
 		return
